@@ -871,7 +871,12 @@ static const char *C08_PATTERNS[] = {
     "req_hdr_distinct", "req_hdr_same", "req_hdr_empty_value", "req_hdr_fold", "req_line_spaces", "req_chunk_lines", "req_empty_lines", "req_body_params",
     "req_cookies", "req_multipart_parts", "res_hdr_distinct", "res_hdr_same", "res_hdr_fold", "res_chunk_lines", "res_ce_tokens", "res_empty_lines",
     "pipelined_tx", "res_interim_100", "res_junk_cr", "req_junk_nul", "res_chunk_ext_long", "req_query_params", "res_hdr_lfcr", "req_body_unexpected_lines",
-    "res_body_unexpected_lines", "req_multipart_lines", "req_hdr_long_value", "res_hdr_nocolon"};
+    "res_body_unexpected_lines", "req_multipart_lines", "req_hdr_long_value", "res_hdr_nocolon",
+    // folded continuation lines under every kind of pending line x every kind of continuation (request and response side)
+    "req_fold.colon.plain", "req_fold.colon.tab", "req_fold.colon.colon", "req_fold.colon.ws", "req_fold.nocolon.plain", "req_fold.nocolon.tab", "req_fold.nocolon.colon", "req_fold.nocolon.ws",
+    "req_fold.emptyname.plain", "req_fold.emptyname.colon", "res_fold.colon.plain", "res_fold.colon.tab", "res_fold.colon.colon", "res_fold.colon.ws", "res_fold.nocolon.plain", "res_fold.nocolon.tab",
+    "res_fold.nocolon.colon", "res_fold.nocolon.ws", "res_fold.emptyname.plain", "res_fold.emptyname.colon", "res_fold10.nocolon.plain", "res_fold10.colon.colon",
+    "req_hdr_nocolon", "req_hdr_nul", "res_hdr_nul", "req_hdr_distinct_case", "res_trailer_same", "req_trailer_same", "res_hdr_cr_only", "req_chunk_ext_lines", "res_status_line_junk_lines"};
 static const int C08_NPAT = (int) (sizeof C08_PATTERNS / sizeof *C08_PATTERNS);
 
 // builds the two streams for pattern `pat` with repetition count k
@@ -907,6 +912,25 @@ static void c08_streams(const std::string &pat, size_t k, Bytes &rq, Bytes &rs) 
     else if (pat == "req_body_unexpected_lines") { rq = "GET / HTTP/1.1\r\nHost: a\r\n\r\n"; for (size_t i = 0; i < k; i++) rq += "zz\r\n"; rs = ok; }
     else if (pat == "res_body_unexpected_lines") { rq = "GET / HTTP/1.1\r\nHost: a\r\n\r\n"; rs = ok; for (size_t i = 0; i < k; i++) rs += "zz\r\n"; }
     else if (pat == "req_hdr_long_value") { rq = "GET / HTTP/1.1\r\nHost: a\r\nX-L: "; rq.append(std::min<size_t>(k, 17000), 'v'); rq += "\r\n\r\n"; rs = ok; }
+    else if (pat.compare(0, 8, "req_fold") == 0 || pat.compare(0, 8, "res_fold") == 0) {
+        bool res = pat[2] == 's'; bool v10 = pat.compare(0, 10, "res_fold10") == 0;
+        size_t d1 = pat.find('.'), d2 = pat.find('.', d1 + 1);
+        std::string pend = pat.substr(d1 + 1, d2 - d1 - 1), cont = pat.substr(d2 + 1);
+        std::string first = pend == "colon" ? "X-F: v\r\n" : pend == "nocolon" ? "X-Note\r\n" : ": v\r\n";
+        std::string unit = cont == "plain" ? " z\r\n" : cont == "tab" ? "\tz\r\n" : cont == "colon" ? " a:b\r\n" : " \t \r\n";
+        Bytes block = first; for (size_t i = 0; i < k; i++) block += unit;
+        if (res) { rq = "GET / HTTP/1.1\r\nHost: a\r\n\r\n"; rs = std::string(v10 ? "HTTP/1.0" : "HTTP/1.1") + " 200 OK\r\nContent-Length: 0\r\n" + block + "\r\n"; }
+        else { rq = "GET / HTTP/1.1\r\nHost: a\r\n" + block + "\r\n"; rs = ok; }
+    }
+    else if (pat == "req_hdr_nocolon") { rq = "GET / HTTP/1.1\r\nHost: a\r\n"; for (size_t i = 0; i < k; i++) rq += "nocolon\r\n"; rq += "\r\n"; rs = ok; }
+    else if (pat == "req_hdr_nul") { rq = "GET / HTTP/1.1\r\nHost: a\r\n"; for (size_t i = 0; i < k; i++) rq += std::string("X-N: a\0b\r\n", 10); rq += "\r\n"; rs = ok; }
+    else if (pat == "res_hdr_nul") { rq = "GET / HTTP/1.1\r\nHost: a\r\n\r\n"; rs = "HTTP/1.1 200 OK\r\nContent-Length: 0\r\n"; for (size_t i = 0; i < k; i++) rs += std::string("X-N: a\0b\r\n", 10); rs += "\r\n"; }
+    else if (pat == "req_hdr_distinct_case") { rq = "GET / HTTP/1.1\r\nHost: a\r\n"; for (size_t i = 0; i < k; i++) rq += (i & 1) ? "x-same: v\r\n" : "X-SAME: v\r\n"; rq += "\r\n"; rs = ok; }
+    else if (pat == "res_trailer_same") { rq = "GET / HTTP/1.1\r\nHost: a\r\n\r\n"; rs = "HTTP/1.1 200 OK\r\nTransfer-Encoding: chunked\r\n\r\n1\r\na\r\n0\r\n"; for (size_t i = 0; i < k; i++) rs += "X-T: v\r\n"; rs += "\r\n"; }
+    else if (pat == "req_trailer_same") { rq = "POST / HTTP/1.1\r\nHost: a\r\nTransfer-Encoding: chunked\r\n\r\n1\r\na\r\n0\r\n"; for (size_t i = 0; i < k; i++) rq += "X-T: v\r\n"; rq += "\r\n"; rs = ok; }
+    else if (pat == "res_hdr_cr_only") { rq = "GET / HTTP/1.1\r\nHost: a\r\n\r\n"; rs = "HTTP/1.1 200 OK\r\nContent-Length: 0\r\nX-C: "; rs.append(std::min<size_t>(k, 17000), '\r'); rs += "\n\r\n"; }
+    else if (pat == "req_chunk_ext_lines") { rq = "POST / HTTP/1.1\r\nHost: a\r\nTransfer-Encoding: chunked\r\n\r\n"; for (size_t i = 0; i < k; i++) rq += "1;e=v\r\na\r\n"; rq += "0\r\n\r\n"; rs = ok; }
+    else if (pat == "res_status_line_junk_lines") { rq = "GET / HTTP/1.1\r\nHost: a\r\n\r\n"; for (size_t i = 0; i < k; i++) rs += "zz\r\n"; rs += ok; }
     else { rq = "GET / HTTP/1.1\r\nHost: a\r\n\r\n"; rs = ok; }
 }
 
